@@ -187,6 +187,8 @@ pub fn run(seed: u64, n: usize, out: &Path, thorough: bool, id: &str, module: &s
         verif::set_sync_config(None);
         let (mut sa, res_a) = c02::build_state(&w, &ops_a, pa)?;
         let (mut sb, res_b) = c02::build_state(&w, &ops_b, pb)?;
+        let foreign_a = add_foreign(&mut sa, &mut rng, &mut stats, &w)?;
+        let foreign_b = add_foreign(&mut sb, &mut rng, &mut stats, &w)?;
         let a0 = all_entries(sa.s(), w.ns_id())?;
         let b0 = all_entries(sb.s(), w.ns_id())?;
         verif::set_clock(now);
@@ -224,11 +226,13 @@ pub fn run(seed: u64, n: usize, out: &Path, thorough: bool, id: &str, module: &s
         stats.add("values_transferred", rec.values as u64);
         if panicked { stats.inc("panicked"); }
         let coq = format!(
-            "(mkCase {} ({}, {}) {} {} {} {} {} {} [{}] {} {} ({}, {}) ({}, {}) {} {} {} {})",
+            "(mkCase {} ({}, {}) {} {} {} {} {} {} {} {} [{}] {} {} ({}, {}) ({}, {}) {} {} {} {})",
             n256(w.ns_id().as_bytes()),
             eff.0, eff.1, now,
             c02::cops(&w, &ops_a, &res_a),
             c02::cops(&w, &ops_b, &res_b),
+            clist(&foreign_a, centry),
+            clist(&foreign_b, centry),
             clist(&a0, centry),
             clist(&b0, centry),
             rec.init,
@@ -269,12 +273,37 @@ pub fn run(seed: u64, n: usize, out: &Path, thorough: bool, id: &str, module: &s
     Ok(())
 }
 
+/// Other documents in the same store (the tables are shared by all documents of a store): one or
+/// two, each with one or two entries; their ids fall on either side of the synced document's.
+pub fn add_foreign(ts: &mut TestStore, rng: &mut Rng, stats: &mut Stats, main: &World) -> anyhow::Result<Vec<iroh_docs::sync::SignedEntry>> {
+    let rt = rt();
+    let mut out = Vec::new();
+    if rng.chance(1, 2) { return Ok(out); }
+    for _ in 0..(1 + rng.below(2)) {
+        let fw = World::new(rng.next(), 1);
+        stats.inc(if fw.ns_id().as_bytes() > main.ns_id().as_bytes() { "foreign_doc_above" } else { "foreign_doc_below" });
+        {
+            let mut replica = ts.s().new_replica(fw.ns.clone())?;
+            verif::set_clock(c02::T0 + 10);
+            for j in 0..(1 + rng.below(2)) {
+                let key: &[u8] = if j == 0 { b"a" } else { b"b" };
+                let e = fw.signed(0, key, HASH_A, 1, c02::T0 + rng.below(5));
+                let _ = rt.block_on(replica.insert_remote_entry(e.clone(), [0u8; 32], iroh_docs::ContentStatus::Missing));
+                out.push(e);
+            }
+        }
+        ts.s().close_replica(fw.ns_id());
+    }
+    Ok(out)
+}
+
 /// Direct probes of the store operations the reconciliation uses (C08).
 pub fn probe_case(rng: &mut Rng, w: &World, stats: &mut Stats) -> anyhow::Result<(String, String)> {
     let len = rng.below(14) as usize;
     let ops: Vec<Op> = (0..len).map(|_| c02::gen_op(rng, w, stats)).collect();
     let persistent = rng.chance(1, 5);
     let (mut ts, results) = c02::build_state(w, &ops, persistent)?;
+    let foreign = add_foreign(&mut ts, rng, stats, w)?;
     let all = all_entries(ts.s(), w.ns_id())?;
     let ns = w.ns_id();
     let mut replica = ts.s().open_replica(&ns)?;
@@ -330,9 +359,10 @@ pub fn probe_case(rng: &mut Rng, w: &World, stats: &mut Stats) -> anyhow::Result
     ts.s().close_replica(ns);
     let after = all_entries(ts.s(), ns)?;
     let coq = format!(
-        "(Probe {} {} {} {} [{}] [{}] ({}, {}, {}, {}, {}))",
+        "(Probe {} {} {} {} {} [{}] [{}] ({}, {}, {}, {}, {}))",
         n256(ns.as_bytes()),
         c02::cops(w, &ops, &results),
+        clist(&foreign, centry),
         clist(&all, centry),
         crid(first.as_ref()),
         ranges.join("; "),
